@@ -195,6 +195,9 @@ def apply_reject(sim, fault, cyc_inputs, label):
         # Simulation and FastSimulation refuse the step with PyrtlError from the middle of their
         # evaluation (CompiledSimulation is not built for such designs)
         before = tracelen(sim)
+        # (a refusal from the middle of the evaluation leaves the wires evaluated before it at
+        # their new values until the next step: inspect() is not compared on this simulator)
+        sim._verif_midpass_refusal = True
         try:
             sim.step(dict(fault['inputs']))
         except pyrtl.PyrtlError:
@@ -218,6 +221,31 @@ def apply_reject(sim, fault, cyc_inputs, label):
     if tracelen(sim) != before:
         return Violation('reject_step', 'trace_grew_on_rejected_step',
                          {'sim': label, 'fault': fault}, [label])
+    return observation_after_refusal(sim, label, before)
+
+
+def observation_after_refusal(sim, label, ntrace):
+    """The value was 'rejected rather than simulated': what inspect() reports afterwards is
+    still the last traced cycle."""
+    import pyrtl
+    if ntrace <= 0 or getattr(sim, '_verif_midpass_refusal', False):
+        return None
+    # (not the Inputs themselves: pyrtl.Simulation validates and stores the offered values one
+    # by one, so the Inputs listed before the refused one already show what was offered; no
+    # property says what an Input reads between a refused step and the next one)
+    inputs = {w.name for w in sim.block.wirevector_subset(pyrtl.Input)}
+    for name in sorted(sim.tracer.trace):
+        if name in inputs:
+            continue
+        try:
+            got = sim.inspect(name)
+        except (pyrtl.PyrtlError, KeyError):
+            continue
+        last = sim.tracer.trace[name][-1]
+        if got != last:
+            return Violation('reject_step', 'inspect_differs_from_trace_after_rejected_step',
+                             {'sim': label, 'wire': name, 'inspect': got, 'last_trace_entry': last},
+                             [label])
     return None
 
 
